@@ -16,6 +16,8 @@ def run(ctx):
             for i, line in enumerate(open(part)):
                 if ctx.quick and cfg == "Gen_n2u" and i % 2:
                     continue
+                if cfg in ("Gen_n3run", "Gen_n3runz") and i % 6:
+                    continue          # three classes: every sixth system of the enumeration
                 out.write(line)       # faulty systems included: both code strings must be empty for non-valid models
     # models with external variables (incl. every state marked: an ODE model without states)
     for cfg in (["GenX_n1"] if ctx.quick else ["GenX_n1", "GenX_n2"]):
@@ -24,7 +26,7 @@ def run(ctx):
             for line in open(part):
                 out.write(line)
     ctx.sample(sysscen, 2)
-    strace = ctx.execute("system", sysscen, timeout_s=120)
+    strace = ctx.execute("system", sysscen, timeout_s=120, wall=3000 if ctx.quick else 12000)
     ctx.validate("System", "Trace_System.tla", "Trace_C17.cfg", strace, "system", parallel=12)
     programs = ctx.cov["traces_validated_against_impl"]
     # (2) expression models: helper functions exactly when used
